@@ -165,8 +165,14 @@ class VoteMagnitudeChecker:
 
         :raises VoteMagnitudeError: If the value is outside the given
             range.
+        :raises VoteValueError: If the value cannot be compared with the
+            bounds (e.g. a non-numeric score).
         """
-        if not self.is_valid(value):
+        try:
+            valid = self.is_valid(value)
+        except TypeError:
+            raise VoteValueError(value) from None
+        if not valid:
             raise VoteMagnitudeError(
                 value, self.min_value, self.max_value, self.value_name
             )
@@ -402,7 +408,13 @@ class ScoreVoteValidator:
             raise VoteError(f'duplicated candidates: {vote}')
         sum_checker = self.sum_checkers[n_scorings]
         if sum_checker:
-            sum_checker.check(sum(scoring[1] for scoring in vote))
+            try:
+                score_sum = sum(scoring[1] for scoring in vote)
+            except TypeError:
+                raise VoteValueError(
+                    [scoring[1] for scoring in vote], allowed='numeric scores'
+                ) from None
+            sum_checker.check(score_sum)
 
 
 @simple_serialization
